@@ -269,15 +269,25 @@ func facts() map[string]string {
 		"settings_smap":         strconv.Itoa(c["smap"]),
 		"settings_num":          strconv.Itoa(c["num"]),
 	}
-	var lists, all []string
+	var lists, all, chains []string
 	for _, s := range table {
 		all = append(all, strconv.Quote(s.Path))
+		if len(s.Opts) > 1 { // fallback chain: several names in the cmdenv struct tag, first with a value wins
+			var names []string
+			for _, o := range s.Opts {
+				names = append(names, o.Name)
+			}
+			chains = append(chains, strconv.Quote(s.Path+"="+strings.Join(names, ">")))
+		}
 		if s.Kind == "strs" && len(s.Opts) > 0 {
 			lists = append(lists, strconv.Quote(s.Path))
 		}
 	}
 	if len(lists) > 0 {
 		out["cmdenv_list_settings"] = "[" + strings.Join(lists, ", ") + "]"
+	}
+	if len(chains) > 0 {
+		out["cmdenv_fallback_chains"] = "[" + strings.Join(chains, ", ") + "]"
 	}
 	out["settings_paths"] = "[" + strings.Join(all, ", ") + "]"
 	return out
